@@ -86,62 +86,55 @@ def check_rolling(run, F, files):
 
 
 def check_aggs(run, F):
-    """vskew / vkurt one-pass formulas (raw sums m1..m4, mutated in place)."""
-    import aggrules as A
+    """vskew / vkurt one-pass formulas (raw sums m1..m4 normalised in place, then adjusted)."""
     jobs, meta = [], {}
-    for name, ref in (('AggValidBasic::vskew', None), ('AggValidExt::vkurt', None)):
+    for name in ('AggValidBasic::vskew', 'AggValidExt::vkurt'):
         fn = F.one(name)
-        # the expression assigned to `res` on the main branch, then the adjustment
-        env = Env()
-        read_block(fn.hir, env)
-        # res after all straight-line updates is tracked by read_block only for straight-line
-        # code; here the closed form is split over an `if`: take the non-constant branch of the
-        # `res` initialiser and apply the adjustment statement symbolically
-        res_init = None
-        adj = None
-        for x in walk(fn.hir):
-            if x.get('k') == 'Block':
-                for s in x.get('stmts', []):
-                    if s['k'] == 'Let' and s['pat'].get('name') == 'res' and 'init' in s:
-                        res_init = (x, s)
-            if x.get('k') in ('AssignOp', 'Assign') and src(peel(x['ch'][0])) == 'res':
-                adj = x
-        if not res_init or adj is None:
+        body = fn.hir
+        stmts = body.get('stmts', [])
+        idx = [i for i, st in enumerate(stmts) if st['k'] == 'Let' and st['pat'].get('name') == 'res']
+        ok_shape = len(idx) == 1
+        final = None
+        where = fn.hir
+        if ok_shape:
+            st = stmts[idx[0]]
+            env = Env()
+            read_block({'stmts': stmts[:idx[0]]}, env)
+            iff = peel(st['init'])
+            main = peel(iff['ch'][1]) if iff.get('k') == 'If' else None
+            inner = [y for y in (peel(main.get('expr', {})),) if y.get('k') == 'If'] if main else []
+            if main is None or not inner:
+                ok_shape = False
+            else:
+                read_block({'stmts': main.get('stmts', [])}, env)
+                branch = peel(inner[0]['ch'][2])
+                read_block({'stmts': branch.get('stmts', [])}, env)
+                value = norm(branch['expr'], env)
+                res_local = st['pat']['local']
+                env.vals[res_local] = value
+                env.killed.discard(res_local)
+                # the adjustment `if res.not_none() && res != 0. { … }`
+                adj = [peel(x.get('e', {})) for x in stmts[idx[0] + 1:] if x['k'] in ('Expr', 'Semi')]
+                adj = [a for a in adj if a.get('k') == 'If' and 'res' in src(a['ch'][0])]
+                if len(adj) != 1:
+                    ok_shape = False
+                else:
+                    where = adj[0]
+                    blk = peel(adj[0]['ch'][1])
+                    if blk.get('k') in ('Assign', 'AssignOp'):
+                        blk = {'k': 'Block', 'stmts': [{'k': 'Semi', 'e': blk}]}
+                    read_block(blk, env)
+                    if blk.get('expr', {}).get('k') in ('Assign', 'AssignOp'):
+                        read_block({'stmts': [{'k': 'Semi', 'e': blk['expr']}]}, env)
+                    final = env.vals.get(res_local)
+        if not ok_shape or final is None:
             run.ob('CAS.form', fn, '%s closed form' % fn.name, False, fn.loc(), 'shape not recognised')
             continue
-        blk, st = res_init
-        e0 = Env()
-        read_block({'stmts': blk['stmts'][:blk['stmts'].index(st)]}, e0)
-        # kill the sums mutated inside the vapply_n closure: they are the symbols
-        iff = peel(st['init'])
-        main = peel(iff['ch'][1])
-        inner_if = [y for y in walk(main) if y.get('k') == 'If']
-        e1 = Env(e0)
-        read_block(main, e1)
-        branch = peel(inner_if[0]['ch'][2]) if inner_if else main
-        e2 = Env(e1)
-        # lets before the inner if
-        read_block({'stmts': main.get('stmts', [])}, e2)
-        e3 = Env(e2)
-        read_block(branch, e3)
-        p_res = norm(branch['expr'], e3) if branch.get('k') == 'Block' and 'expr' in branch else norm(branch, e3)
-        # adjustment: `res *= adjust` (skew) or `res = f(res)` (kurt)
-        e4 = Env()
-        for lid, v in e0.vals.items():
-            e4.vals[lid] = v
-        res_local = st['pat']['local']
-        e4.vals[res_local] = p_res
-        par = None
-        for x in walk(fn.hir):
-            if x.get('k') == 'Block' and any((s.get('e') is adj) for s in x.get('stmts', [])):
-                par = x
-        read_block(par, e4)
-        final = e4.vals.get(res_local)
-        refs = cas.ref_skew(s1='S_m1', s2='S_m2', s3='S_m3') if 'skew' in name else \
+        ref = cas.ref_skew(s1='S_m1', s2='S_m2', s3='S_m3') if 'skew' in name else \
             cas.ref_kurt(s1='S_m1', s2='S_m2', s3='S_m3', s4='S_m4')
         jid = fn.qpath
-        jobs.append({'id': jid, 'poly': final, 'ref': refs})
-        meta[jid] = (fn, '%s closed form' % fn.name, adj)
+        jobs.append({'id': jid, 'poly': final, 'ref': ref})
+        meta[jid] = (fn, '%s closed form' % fn.name, where)
     res = cas.compare(jobs)
     for jid, (fn, key, e) in meta.items():
         eq, det = res.get(jid, (None, 'no result'))
